@@ -463,6 +463,9 @@ struct Calib {
   }
 } g_cal;
 
+// calibration aid: DSIM_C10_KSCALE=<factor> scales every convergence constant (read once at start-up; never set in registered checks)
+const double g_kScale = getenv("DSIM_C10_KSCALE") ? atof(getenv("DSIM_C10_KSCALE")) : 1.0;
+
 // DSIM_C10_DEBUG=<file>: append a human-readable summary of every optimisation to <file> (read once at start-up, never hashed)
 const char* const g_debugFile = getenv("DSIM_C10_DEBUG");
 
@@ -470,15 +473,19 @@ const char* const g_debugFile = getenv("DSIM_C10_DEBUG");
 // worst ratios seen (130 000 runs before the fixes 01-09, 80 000 after them, seed 1): Bfgs 673 (137 after), ConjugateGradient 3.5, Powell 24,
 // DownhillSimplex 3119 (555 over 800 000 runs after the stop-rank fix adfac37), SimpleMulti 8.4, SimpleNewtonMulti 7.7, Brent / BrentInward / GoldenSection 0.40, Newton1D 3.3e-10,
 // Meta 321 (665 when it drives the downhill simplex in full mode); over 8 seeds after adfac37: Meta 5086, simplex in full mode 3392
+// worst ratios over 12 seeds x 40 000 mixed runs on the tree with all fixes: Bfgs 892, ConjugateGradient 2.8, Powell 16.6, Simple* 8.2,
+// Brent* / GoldenSection 0.74, Newton1D 3.6e-10, Meta 3664. Constants are >= 25x those, except Bfgs and Meta: their function-change
+// stop test on a badly scaled quadratic (identity start Hessian, curvatures down to 1e-4) stops at a distance that grows like
+// 1/sqrt(curvature) times D, so their ratio is bounded by the spectrum range of the generator rather than by a small constant.
 double convK(int kind, int n) {
   switch (kind) {
     case O_BFGS: return 1e5;
-    case O_CG: return 500;
-    case O_POWELL: return 3000;
+    case O_CG: return 100;
+    case O_POWELL: return 600;
     case O_DSM: return n <= 1 ? 2000 : (n == 2 ? 500 : (n <= 4 ? 2000 : (n == 5 ? 5000 : 10000)));     // worst per dimension (20 seeds x 40 000 simplex-only runs, tree with the stop-rank fix): 124, 12, 71, 110, 285, 555 (before that fix: 14, 845, 75, 518, 2551, 23451 in 40 000)
-    case O_SIMPLE: case O_SNEWTON: return 1000;
-    case O_BRENT: case O_BRENTIN: case O_GOLDEN: return 50;
-    case O_NEWTON1: return 1e-6;
+    case O_SIMPLE: case O_SNEWTON: return 250;
+    case O_BRENT: case O_BRENTIN: case O_GOLDEN: return 20;
+    case O_NEWTON1: return 1e-7;
     default: return 1e5;
   }
 }
@@ -703,7 +710,7 @@ public:
       g_cal.see(key + ":bad30", ratio > 30 ? 1 : 0, w);
       g_cal.see(key + ":progress", d0 > 0 ? dist / d0 : 0, w);
     }
-    double K = convK(c.kind, oc.n);
+    double K = convK(c.kind, oc.n) * g_kScale;
     if (!(ratio <= K))
       vfail("invariant:convergence", "invariant:convergence:" + key, on() + ": distance to the minimiser " + fmtd(dist) + " (start was at " + fmtd(d0) + "), bound " + fmtd(K * (D + flo)) + " for tolerance " + fmtd(c.tol) + ", smallest curvature " + fmtd(lmin));
   }
